@@ -10,3 +10,17 @@ TEXT = {
         text="seek: all positions and all SeekFrom values against the real std::io::Cursor (no bound). write/read/set_position: one step from every reachable state in a listed (len,pos,write-len) grid <= 40 bytes with symbolic contents against an array model of std's cursor that is itself tied to std::io::Cursor.",
         note="Trusted: Kani/CBMC/CaDiCaL and std's Cursor as the reference; positions near usize::MAX and states > 40 B are outside."),
 }
+
+_RT_NOTE = ("Trusted: Kani's MIR->GOTO translation and std models, CBMC, CaDiCaL; the environment stubs listed in the evidence "
+            "(Sink/Exact/Al, the UTF-8 validity model replacing core::str::from_utf8). The program dimension is the listed universe "
+            "(bin/universe.py): types are not solver variables. Sequences <= 3 elements, strings <= 2 chars (all code points per width class).")
+TEXT.update({
+    "C01": dict(text="Bounded model checking of the real serializers and full-copy deserializers (incl. the derive macro's output): for every listed type, start residue and shape, all values are symbolic; the solver shows serialize -> deserialize_full returns an equal value and consumes exactly the bytes written.", note=_RT_NOTE),
+    "C02": dict(text="Same harness family with both deserializers on the same 128-aligned bytes: eps result equals the original under the documented substitution and equals full-copy; all values symbolic.", note=_RT_NOTE),
+    "C03": dict(text="Pointer identity decided by the solver: every borrowed slice/str/reference of the eps result starts at buffer base + the offset at which a recording writer saw the serializer emit that block, has the written length, is aligned and in bounds; CBMC's pointer checks cover the unsafe align_to/from_raw_parts code. The allocation-count sub-claim is outside (no allocation counter in Kani).", note=_RT_NOTE),
+    "C10": dict(text="All 2^232 values of the 29 fixed header bytes are symbolic at once for each listed reader type and both modes; the oracle is the published priority list written independently; every error arm and the accepted arm (incl. lower minor) have satisfied cover witnesses.", note="Trusted: Kani/CBMC/CaDiCaL; UTF-8 validity model for the (uncorrupted) type name. Reader types limited to streams <= 64 bytes."),
+    "C12": dict(text="Base-address residue R in 0..128 is a solver variable together with all values; the expected verdict is computed from the blocks a recording writer logged (Ok iff every block lands on a multiple of its unit, else AlignmentError), references must be aligned on Ok.", note=_RT_NOTE + " CBMC places objects at maximally aligned bases, so misplacement is the explicit offset R."),
+    "C13": dict(text="Failure position (every k in 0..=len), flush failure and short-write/Interrupted/Ok(0) patterns are solver variables; Err(WriteError) iff a failure was injected, accepted bytes are a prefix of the fault-free stream, and the source value is used and dropped inside the harness so double/invalid frees are CBMC check failures (replayed under Miri).", note="Trusted: Kani/CBMC/CaDiCaL; Faulty/ShortW writers. Real files and /dev/full are outside (FFI)."),
+    "C15": dict(text="All 256 one-byte tags (Option, Bound, ControlFlow) and all 2^64 pointer-width tags (derived enums) with symbolic payloads, both modes; the expected tags are obtained by running the real serializer on each variant inside the harness.", note="Trusted: Kani/CBMC/CaDiCaL. Enums outside the universe are outside."),
+    "C16": dict(text="Streams of Vec<T>, &[T] and SerIter over the same symbolic items are compared byte-for-byte (header included, one symbolic index) and by returned byte count; lying iterators with symbolic (announced, actual) must yield IteratorLengthMismatch with both counts.", note="Trusted: Kani/CBMC/CaDiCaL. len <= 3; announced, actual <= 4."),
+})
